@@ -10,13 +10,13 @@ TB_COMMON = "Trusted base: the harness itself (reference model named in the text
 
 CHECKS = {
     "C01": dict(cat="model_checking", design="§4 C01, §3.2, §3.3", engine=ENGINE,
-                technique="explicit-state exploration (stateright BFS) of registration histories on the real Registry + exhaustive enumeration of all small type graphs x root sequences, builder histories and (registry, filter) pairs; invariant: dense and closed",
+                technique="explicit-state exploration (layered parallel BFS keyed by the Debug rendering of the real Registry, cross-checked against stateright) of registration histories on the real Registry + exhaustive enumeration of all small type graphs x root sequences, builder histories and (registry, filter) pairs; invariant: dense and closed",
                 text="Every reachable state of: (a) all register_type / register_types / into_portable / map_into_portable histories over the 61-member static universe U1 to depth 3 (quick) / 4 (thorough) and over a 19-op core alphabet to depth 5 / 7; (b) every type graph of the U2 plans (all graphs up to 3 nodes, 4 thorough, incl. self and mutual recursion and parameter-only reachability) x every root sequence with repetition; (c) every builder history to depth 5/6; (d) every (registry, filter) pair of the C10 enumeration; and decode(encode(r)) of all of them, is checked for id == index, resolve agreement, Registry::types() keys in order, and closure of every mentioned id (fields, variant fields, params, sequence/array/compact element, tuple members, bit store/order).",
                 note="refs() is the independent visitor of every id position."),
     "C02": dict(cat="model_checking", design="§4 C02", engine=ENGINE,
                 technique="explicit-state exploration of registration histories (U1, stateright) and exhaustive type-graph enumeration (U2) with a co-inductive image check against MetaType::type_info()",
                 text="For every history of the C01 exploration (U1 to depth 3/4, core to 5/7; every U2 graph x root sequence), every id returned by a registration is compared, slot by slot and to a fixed point through cycles, with the type's own type_info(): path, parameter names and Some/None, kind, field names, type names, docs, variant names / indices / docs, array length, tuple arity, primitive tag; outputs of into_portable / map_into_portable are compared the same way.",
-                note="The derive- and built-in-grammar corpora (generated programs) extend this check in the progs engine when built; termination of registration is observed (a crash of the engine is investigated by the driver)."),
+                note="The same image check runs over every definition of the generated derive- and built-in-grammar corpora (each registered alone); termination of registration is observed (an engine crash is attributed by registering each universe member in its own process)."),
     "C03": dict(cat="exploration", design="§4 C03, §3.5", engine=PROGS,
                 technique="exhaustive enumeration of a bounded grammar of type definitions (base shapes x overlays, deviation-bounded) compiled by rustc against /repo, x every value of boundary leaf domains; oracle: schema-directed reference decoder that knows only the PortableRegistry",
                 text="~4.4k (quick) / ~36k (thorough) definitions deriving TypeInfo and Encode: every base shape with every single codec/scale_info overlay at every position and overlay pairs (triples thorough) on representative bases, incl. skip, compact, index, encoded_as, explicit discriminants (c-like and #[repr(u8)] with fields), PhantomData members, recursion, generics; for each, all-default / all-last / every single-member deviation over the member's whole value domain. value.encode() must be consumed exactly by the reference decoder and yield the generator's expected tree (variant name and index, member names and order, leaf values); first byte == metadata index; no duplicate indices.",
@@ -46,9 +46,9 @@ CHECKS = {
                 text="Every transition of the U1 and U2 explorations: the snapshot of Registry::types() before an operation is an entry-for-entry prefix of the snapshot after it; every history is replayed and must give byte-identical encodings; for every U2 graph every permutation of every root subset (size 2..4) must give the same registry after rooted canonical renumbering (no particular numbering is demanded).",
                 note="Canonical renumbering = DFS from the roots in a fixed order following refs() positionally."),
     "C12": dict(cat="model_checking", design="§4 C12", engine=ENGINE,
-                technique="explicit-state exploration (stateright BFS) of all operation sequences on the real PortableRegistryBuilder and Interner against a duplicate-free Vec model, observations evaluated in every state",
-                text="All register_type sequences to depth 7 (quick) / 8 (thorough) over a 9-value alphabet (two values depend on the current state through next_type_id; four differ from another value in exactly one slot: docs, path, params), and all intern_or_get sequences to depth 11 / 13 over 4 values on Interner<u32> and Interner<&str>; in every state next_type_id, get(i) for i in {0,1,2,len-1,len,len+1,u32::MAX}, finish, get(&v), resolve of every symbol up to len+2 (via a foreign interner) and elements are compared with the Vec model.",
-                note="State key = Debug rendering of the real object; 1-thread and N-thread explorations must agree on state counts."),
+                technique="explicit-state exploration (layered parallel BFS with visited set, cross-checked against stateright) of all operation sequences on the real PortableRegistryBuilder and Interner against a duplicate-free Vec model, observations evaluated in every state",
+                text="All register_type sequences to depth 7 (quick) / 9 (thorough) over a 9-value alphabet (two values depend on the current state through next_type_id; four differ from another value in exactly one slot: docs, path, params), and all intern_or_get sequences to depth 12 / 14 over 4 values on Interner<u32> and Interner<&str>; in every state next_type_id, get(i) for i in {0,1,2,len-1,len,len+1,u32::MAX}, finish, get(&v), resolve of every symbol up to len+2 (via a foreign interner) and elements are compared with the Vec model.",
+                note="State key = Debug rendering of the real object; stateright (1 thread and N threads) and the layered explorer must agree on state and transition counts at a smaller depth on every run."),
     "C06": dict(cat="exploration", design="§4 C06, §3.4", engine=ENGINE,
                 technique="bounded exhaustive enumeration of the PortableRegistry value space (regspace) against an independent V14 encoder/decoder (refscale)",
                 text="Every registry of the enumerated value space (component-complete products over compact-size-class boundary domains, k-deviation mixtures, ill-formed multi-entry registries, registries produced by the real Registry) is encoded by the library and by an independent transcription of the V14 layout; bytes must be equal and each decoder must read the other's bytes back to the same registry.",
@@ -72,7 +72,7 @@ CHECKS = {
     "C17": dict(cat="exploration", design="§4 C17", engine=ENGINE,
                 technique="exhaustive enumeration of builder call scripts (every legal call order, both forms, docs feature off and on) against an echo model, plus a PhantomData scan of every definition reachable from the type corpora",
                 text="24k scripts per build: every permutation of field setters (ty|compact over 5 kinds incl. PhantomData, name, type_name, docs|docs_always), composites with 0-3 fields, every permutation of variant setters (index, fields, discriminant, docs), every permutation of type setters incl. setters before path and repeated setters; compile-time and portable builders; two builds (docs off / on). Oracle: the built Type equals the supplied parts in order minus PhantomData members, docs kept iff always-variant or feature on. Corpus: no field or tuple member of any definition reachable from U1 and the U3 table is a PhantomData (decided from the member's own definition).",
-                note="Derive- and built-in-grammar corpora are scanned by the progs engine when built."),
+                note="The PhantomData scan also runs over every definition of the generated derive- and built-in-grammar corpora."),
     "C18": dict(cat="exploration", design="§4 C18", engine=ENGINE,
                 technique="exhaustive enumeration of all strings up to a length bound over a class-representative alphabet, all segment lists and replacement tables over representatives, against a hand-written DFA and list model",
                 text="All strings of length <= 7 (quick) / 8 (thorough) over a 10-symbol class-representative alphabet as single segments; all segment lists of length <= 3 (4) over 11 representative segments; Path::new over all ident x module-path combinations; new_with_replace over all replacement tables of <= 2 (3) entries. Oracle: DFA for (r#)?[A-Za-z_][A-Za-z0-9_]* and a list model for order / ident / namespace / display / first offending position / panic-iff-error.",
